@@ -3,6 +3,7 @@
 package layer2
 
 import (
+	"syscall"
 	"bytes"
 	"encoding/json"
 	"fmt"
@@ -224,7 +225,7 @@ var c13Scopes = []uint8{
 	c13All | c13Eth1, // allInterfaces together with a (meaningless) list
 }
 
-var c13BadVariants = []string{"foreign-mac", "near-mac", "multicast-mac", "op-reply", "op-reply-unicast", "op-rarp", "op-zero", "op-inarp", "ethertype-ipv4", "truncated-arp", "truncated-ethernet"}
+var c13BadVariants = []string{"transient-read-error", "foreign-mac", "near-mac", "multicast-mac", "op-reply", "op-reply-unicast", "op-rarp", "op-zero", "op-inarp", "ethertype-ipv4", "truncated-arp", "truncated-ethernet"}
 
 func c13BadClass(variant string) string {
 	switch {
@@ -234,6 +235,8 @@ func c13BadClass(variant string) string {
 		return "non-request-operation"
 	case strings.HasPrefix(variant, "truncated"):
 		return "truncated-frame"
+	case variant == "transient-read-error":
+		return "read-error"
 	default:
 		return "non-arp-ethertype"
 	}
@@ -497,6 +500,12 @@ func (e *c13Exec) exec(op *c13Op) {
 		e.v.A.DeleteBalancer(name)
 		op.Ret = e.tick()
 	case "req", "bad":
+		if op.Variant == "transient-read-error" {
+			// the socket reports ENETDOWN once (interface flap) and works again afterwards: the responder keeps reading
+			op.Reason = e.v.ProcessARPReadError(c13IntfName[op.Intf], &net.OpError{Op: "read", Net: "packet", Err: syscall.ENETDOWN},
+				func() { op.Call = e.tick() }, func() { op.Ret = e.tick() })
+			return
+		}
 		frame, sender, senderIP := e.requestFrame(op)
 		reason, frames := e.v.ProcessARP(c13IntfName[op.Intf], frame,
 			func() { op.Call = e.tick() }, func() { op.Ret = e.tick() })
